@@ -158,7 +158,10 @@ EvalArgs(args, i, st, acc) ==
 EvalC(e, st) ==
     LET k == e.k IN
     CASE k = "num" ->
-            LET v64 == Mk(64, e.v) t == LitType(v64, e.base, e.suffix) IN R(Cast(t.w, FALSE, v64), t, st)
+            LET v64 == Mk(64, e.v) t == LitType(v64, e.base, e.suffix)
+                \* a decimal literal without U suffix that does not fit long long has no type (6.4.4.1p6)
+                notype == e.base = "dec" /\ e.suffix \in {"", "LL"} /\ Msb(v64)
+            IN  R(Cast(t.w, FALSE, v64), t, IF notype THEN Unspec(st, "literal without type") ELSE st)
       [] k = "var" ->
             IF e.n \in DOMAIN st.vars
             THEN LET x == st.vars[e.n]
@@ -300,7 +303,10 @@ AssignTo(l, o, r, st) ==
         LET bop == CASE o = "+=" -> "+" [] o = "-=" -> "-" [] o = "*=" -> "*" [] o = "/=" -> "/"
                      [] o = "%=" -> "%" [] o = "&=" -> "&" [] o = "|=" -> "|" [] o = "^=" -> "^"
                      [] o = "<<=" -> "<<" [] o = ">>=" -> ">>"
-            rr == EvalC([k |-> "bin", o |-> bop, a |-> l, b |-> r], st)
+            \* deviation CompoundRhsToDestFirst: the right operand is converted to the target type before
+            \* the operation (shifts excepted), instead of taking part in the usual arithmetic conversions
+            r2 == IF "CompoundRhsToDestFirst" \in st.dev /\ bop \notin {"<<", ">>"} THEN [k |-> "cast", t |-> lt, a |-> r] ELSE r
+            rr == EvalC([k |-> "bin", o |-> bop, a |-> l, b |-> r2], st)
             v == Conv(rr.st, rr.v, rr.t, lt)
         IN  R(v, lt, StoreLv(l, v, rr.st))
 
@@ -348,7 +354,11 @@ ExecC(s, st) ==
       [] k = "return" ->
             IF s.e.k = "none" THEN [st EXCEPT !.flow = "return"]
             ELSE LET r == EvalC(s.e, st)
-                 IN  [r.st EXCEPT !.flow = "return", !.retv = Conv(r.st, r.v, r.t, r.st.rett)]
+                     \* deviation ReturnViaU64 (not observable by itself, only together with CastBothSigned):
+                     \* the returned value is first widened to an unsigned 64-bit carrier
+                     v64 == IF "ReturnViaU64" \in r.st.dev THEN Conv(r.st, r.v, r.t, U64) ELSE r.v
+                     t64 == IF "ReturnViaU64" \in r.st.dev THEN U64 ELSE r.t
+                 IN  [r.st EXCEPT !.flow = "return", !.retv = Conv(r.st, v64, t64, r.st.rett)]
       [] k = "store" ->
             LET ra == EvalC(s.a, st)
                 rv == EvalC(s.v, ra.st)
